@@ -305,7 +305,23 @@ def sk11(iso, L, cfg, hook=_nohook, fp=None):
     return {'files': {'/AAA.;1': L[0], '/DIR1/CCC.;1': L[1], '/FFF.;1': L[2]}, 'dirs': ['/DIR1'], 'steps': 8}
 
 
-SKELETONS = {'sk1': sk1, 'sk2': sk2, 'sk3': sk3, 'sk4': sk4, 'sk5': sk5, 'sk6': sk6, 'sk7': sk7, 'sk8': sk8, 'sk9': sk9, 'sk10': sk10, 'sk11': sk11}
+def sk12(iso, L, cfg, hook=_nohook, fp=None, k=34):
+    """a ROOT directory of several sectors: k one-byte files with 30-character names plus three files of symbolic length in the root, one
+    removed again: every volume descriptor that describes the root (PVD, duplicate, ISO9660:1999 enhanced, Joliet) must follow its length"""
+    fp = fp or h.InFP()
+    for i in range(k):
+        iso.add_fp(fp, 1, **fkw(cfg, 'F%029d' % i))
+    hook(0)
+    iso.add_fp(fp, L[0], **fkw(cfg, 'AAA')); hook(1)
+    iso.add_fp(fp, L[1], **fkw(cfg, 'MMM')); hook(2)
+    iso.add_fp(fp, L[2], **fkw(cfg, 'ZZZ')); hook(3)
+    iso.rm_file(iso_path='/F%029d.;1' % 1); hook(4)
+    files = {'/F%029d.;1' % i: 1 for i in range(k) if i != 1}
+    files.update({'/AAA.;1': L[0], '/MMM.;1': L[1], '/ZZZ.;1': L[2]})
+    return {'files': files, 'dirs': [], 'steps': 5}
+
+
+SKELETONS = {'sk1': sk1, 'sk2': sk2, 'sk3': sk3, 'sk4': sk4, 'sk5': sk5, 'sk6': sk6, 'sk7': sk7, 'sk8': sk8, 'sk9': sk9, 'sk10': sk10, 'sk11': sk11, 'sk12': sk12}
 
 
 # ---- object collection (what occupies which sectors) ----------------------------------------------
